@@ -82,10 +82,10 @@ class JWTClaimsRegistry(ClaimsRegistry):
 
         if option_values is None:
             option_value = option.get("value")
-            if option_value:
+            if option_value is not None:
                 option_values = [option_value]
 
-        if not option_values:
+        if option_values is None:
             return
 
         if isinstance(value, list):
